@@ -208,3 +208,135 @@ def run(rep, tier):
         for n, name, m in viol:
             rep.fail('R19.4', '%s|%s.%s' % (f.q.split('::')[-1], name, m), locstr(n), '%s.%s() reachable with %s possibly empty in %s' % (name, m, name, f.q))
     rep.ok('R19.4', 'InterpreterIssue.cpp', '%d front()/back() uses guarded by an emptiness/size test' % total_ok)
+
+    # ---- R19.5 / R19.6
+    loop_carried(rep, fb)
+
+
+LOOPS = ('ForStmt', 'CXXForRangeStmt', 'WhileStmt', 'DoStmt')
+APPEND = ('insert', 'push_back', 'push_front', 'emplace_back', 'merge', 'splice', 'append', 'operator+=')
+CONTAINER_T = re.compile(r'std::(list|set|map|vector|multimap|multiset|basic_string)<|^std::string$')
+# containers that accumulate across iterations on purpose: (function, variable) -> reason (confirmed by reading)
+ACCUMULATES_OK = {}
+
+
+def loop_carried(rep, fb):
+    rep.rule('R19.5', 'reference sets are per element: a container that is filled inside a loop and then consulted in the guard of an issue (fill-then-query) is created or reset inside that loop, so the verdict about one element does not depend on the elements checked before it')
+    rep.rule('R19.6', 'the validator checks the text the executor runs: the <script> text handed to isValidSyntax is getTextContent() or is accumulated over ALL text/CDATA children (appended, never overwritten inside the loop)')
+    vf = [f for f in fb.funcs.values() if f.file.endswith('debug/InterpreterIssue.cpp') and f.d.get('body')]
+    n_guards = n_loops = 0
+    for f in vf:
+        decls = {}
+        for n in f.walk():
+            if n['k'] == 'DeclStmt':
+                for d in n.get('decls', []):
+                    if CONTAINER_T.search(d.get('t') or ''):
+                        decls[d['lid']] = (d, n)
+        if not decls:
+            continue
+        for lp in f.walk():
+            if lp['k'] not in LOOPS:
+                continue
+            n_loops += 1
+            body = lp['c'][-1]
+            if body is None:
+                continue
+            body_ids = {x['id'] for x in sub(body) if 'id' in x}
+            # mutations / resets / guarded reads per variable inside this loop body
+            per = {}
+            for n in sub(body):
+                lid = name = None
+                kind = None
+                if n['k'] == 'CXXMemberCallExpr' and n.get('c') and n['c'][0].get('c'):
+                    base = strip(n['c'][0]['c'][0])
+                    if base and base['k'] == 'DeclRefExpr' and base.get('ref', {}).get('lid') in decls:
+                        m = n.get('callee', {}).get('q', '').split('::')[-1]
+                        lid = base['ref']['lid']
+                        kind = 'append' if m in APPEND else 'reset' if m in ('clear', 'assign', 'swap') else None
+                elif n['k'] == 'CXXOperatorCallExpr' and n.get('op') in ('+=', '=') and len(n.get('c', [])) > 1:
+                    base = strip(n['c'][1])
+                    if base and base['k'] == 'DeclRefExpr' and base.get('ref', {}).get('lid') in decls:
+                        lid = base['ref']['lid']
+                        kind = 'append' if n['op'] == '+=' else 'reset'
+                if lid is not None and kind:
+                    per.setdefault(lid, {'append': [], 'reset': [], 'query': []})[kind].append(n)
+            # guarded reads: the variable occurs in the condition of an if whose then-branch emits an issue
+            for n in sub(body):
+                if n['k'] != 'IfStmt':
+                    continue
+                kids = [c for c in n['c'] if c is not None]
+                if len(kids) < 2:
+                    continue
+                emits = any(x['k'] in ('CXXConstructExpr', 'CXXTemporaryObjectExpr') and x.get('callee', {}).get('q', '').startswith('uscxml::InterpreterIssue::InterpreterIssue') for x in sub(kids[1]))
+                if not emits:
+                    continue
+                n_guards += 1
+                for x in sub(kids[0]):
+                    if x['k'] == 'DeclRefExpr' and x.get('ref', {}).get('lid') in per:
+                        per[x['ref']['lid']]['query'].append(x)
+            for lid, ev in per.items():
+                d, dn = decls[lid]
+                if dn['id'] in body_ids:
+                    continue                  # created inside this loop
+                if not ev['append'] or not ev['query']:
+                    continue
+                first_app = min(a['loc'][1] for a in ev['append'])
+                first_q = min(q['loc'][1] for q in ev['query'])
+                resets_before = [r for r in ev['reset'] if r['loc'][1] <= first_app]
+                if first_app <= first_q and not resets_before:
+                    # is the declaration inside an enclosing loop whose body also contains this loop and no other iteration re-uses it?  (fresh per outer iteration is fine
+                    # only if this loop runs once per outer iteration over the *chunks of one element*: the query must then come after this loop, not inside it)
+                    if (f.q, d['name']) in ACCUMULATES_OK:
+                        rep.ok('R19.5', '%s|%s' % (f.q.split('::')[-1], d['name']), 'accumulates on purpose: ' + ACCUMULATES_OK[(f.q, d['name'])])
+                        continue
+                    rep.fail('R19.5', '%s|%s' % (f.q.split('::')[-1], d['name']), locstr(ev['query'][0]),
+                             'the container `%s` (declared at %s, outside the loop at %s) is filled at line %d and consulted in an issue guard at line %d of the same iteration without being reset: what earlier elements put there decides the verdict for this one' % (
+                                 d['name'], locstr(dn), locstr(lp), first_app, first_q))
+    rep.minimum('R19.5', n_guards, 10, 'issue guards inside loops of the validator')
+    rep.ok('R19.5', 'validator', '%d loops, %d issue guards inside loops examined' % (n_loops, n_guards))
+    # R19.6
+    sites = 0
+    for f in vf:
+        for n in f.walk():
+            if n['k'] != 'IfStmt':
+                continue
+            kids = [c for c in n['c'] if c is not None]
+            if len(kids) < 2:
+                continue
+            msg = [x.get('str', '') for x in sub(kids[1]) if x['k'] == 'StringLiteral']
+            if not any('yntax error in script' in m for m in msg):
+                continue
+            call = [x for x in sub(kids[0]) if x.get('callee', {}).get('q', '').endswith('isValidSyntax')]
+            if not call:
+                continue
+            sites += 1
+            arg = strip(call[0]['c'][1]) if len(call[0].get('c', [])) > 1 else None
+            while arg is not None and arg['k'] == 'CXXConstructExpr' and arg.get('c'):
+                arg = strip(arg['c'][0])
+            ok, why = False, 'argument not understood'
+            if arg is not None and any(x.get('callee', {}).get('q', '').endswith('getTextContent') for x in sub(arg)):
+                ok, why = True, 'getTextContent() like the executor'
+            elif arg is not None and arg['k'] == 'DeclRefExpr' and 'lid' in arg.get('ref', {}):
+                lid = arg['ref']['lid']
+                writes = []
+                for m in f.walk():
+                    if m['k'] == 'CXXOperatorCallExpr' and m.get('op') in ('+=', '=') and len(m.get('c', [])) > 1:
+                        b = strip(m['c'][1])
+                        if b and b['k'] == 'DeclRefExpr' and b.get('ref', {}).get('lid') == lid:
+                            inloop = [a for a in f.ancestors(m) if a['k'] in LOOPS]
+                            writes.append((m, m['op'], bool(inloop) and any('getNextSibling' in fb.text(a)[:300] or 'getNodeValue' in fb.text(m) for a in inloop[:1])))
+                    if m['k'] == 'CXXMemberCallExpr' and m.get('callee', {}).get('q', '').split('::')[-1] in ('append', 'assign') and m['c'][0].get('c'):
+                        b = strip(m['c'][0]['c'][0])
+                        if b and b['k'] == 'DeclRefExpr' and b.get('ref', {}).get('lid') == lid:
+                            writes.append((m, '+=' if m['callee']['q'].endswith('append') else '=', True))
+                loopw = [w for w in writes if w[2]]
+                if any(x.get('callee', {}).get('q', '').endswith('getTextContent') for w in writes for x in sub(w[0])):
+                    ok, why = True, 'assigned from getTextContent()'
+                elif loopw and all(op == '+=' for _, op, _ in loopw):
+                    ok, why = True, 'appended for every text/CDATA child (%d append site(s))' % len(loopw)
+                elif loopw:
+                    why = 'OVERWRITTEN inside the loop over the child nodes at %s: only the last chunk is checked while the executor runs getTextContent()' % ', '.join(locstr(w[0]) for w in loopw if w[1] == '=')
+                else:
+                    why = 'no assembly of the script text found'
+            rep.check(ok, 'R19.6', '%s|script text' % f.q.split('::')[-1], locstr(call[0]), 'script text handed to isValidSyntax: ' + why)
+    rep.minimum('R19.6', sites, 1, 'script syntax check sites')
